@@ -1342,6 +1342,165 @@ def spec_fails(fmt, key=None):
     return f
 
 
+# ------------------------------------------------------------------------------------------
+# round trips that START FROM TEXT: supercell headers, foreign files, varied layouts
+# ------------------------------------------------------------------------------------------
+
+NCELLS = [(2, 1, 1), (1, 3, 2), (2, 2, 2), (1, 1, 2), (3, 1, 1)]
+
+
+def ncell_text(rng, fmt, ncell, n4):
+    """A DISCUS / PDFfit text with a supercell header `ncell m, n, o, k` and m*n*o*k atoms."""
+    kind = rng.choice(["ortho", "hex", "tric", "cubic"])
+    cell = {"ortho": [3.5, 4.25, 5.125, 90, 90, 90], "hex": [3.0, 3.0, 4.9, 90, 90, 120],
+            "tric": [3.1, 4.2, 5.3, 81.0, 97.0, 103.0], "cubic": [3.0, 3.0, 3.0, 90, 90, 90]}[kind]
+    out = ["title  supercell %dx%dx%d" % ncell]
+    if fmt == "pdffit":
+        out += ["format pdffit", "scale   1.000000", "sharp   0.000000,  0.000000,  1.000000,  0.000000"]
+    out += ["spcgr   P1", "cell   " + ", ".join("%9.6f" % v for v in cell)]
+    if fmt == "pdffit":
+        out.append("dcell  " + ", ".join("%9.6f" % 0.0 for _ in range(6)))
+    nat = ncell[0] * ncell[1] * ncell[2] * n4
+    out += ["ncell  %9i, %9i, %9i, %9i" % (ncell + (n4,)), "atoms"]
+    for _ in range(nat):
+        el = rng.choice(["NI", "O", "C"])
+        xyz = [rng.uniform(0, ncell[i]) for i in range(3)]
+        if fmt == "discus":
+            out.append("%-4s %17.8f %17.8f %17.8f %12.4f" % (el, xyz[0], xyz[1], xyz[2], rng.uniform(0.05, 2.0)))
+        else:
+            u = rng.uniform(0.002, 0.03)
+            uu = [u, u * rng.uniform(0.8, 1.2), u * rng.uniform(0.8, 1.2)] if rng.random() < 0.5 else [u, u, u]
+            off = [0.0, 0.0, 0.0] if (kind in ("ortho", "cubic") and rng.random() < 0.6) else [u * rng.uniform(-0.2, 0.2) for _ in range(3)]
+            out.append("%-4s %17.8f %17.8f %17.8f %12.4f" % (el, xyz[0], xyz[1], xyz[2], rng.choice([1.0, 0.5])))
+            out.append("    %18.8f %17.8f %17.8f %12.4f" % (0, 0, 0, 0))
+            out.append("    %18.8f %17.8f %17.8f" % tuple(uu))
+            out.append("    %18.8f %17.8f %17.8f" % (0, 0, 0))
+            out.append("    %18.8f %17.8f %17.8f" % tuple(off))
+            out.append("    %18.8f %17.8f %17.8f" % (0, 0, 0))
+    return "\n".join(out) + "\n"
+
+
+def vary_text(rng, fmt, t):
+    """Harmless layout variations of a written text: blank lines, comments, column spacing."""
+    lines = t[:-1].split("\n") if t.endswith("\n") else t.split("\n")
+    out = []
+    kind = rng.choice(["blank-end", "comments", "spacing", "blank-mid"])
+    if kind == "blank-end":
+        out = lines + ["", "   ", ""]
+    elif kind == "comments":
+        if fmt in ("xyz", "rawxyz"):
+            out = ["# generated by the round-trip check", ""] + lines
+        elif fmt in ("discus", "pdffit"):
+            k = lines.index("atoms") if "atoms" in lines else 1
+            out = lines[:1] + ["# a comment in the header"] + lines[1:k] + ["#another"] + lines[k:]
+        elif fmt == "xcfg":
+            out = lines[:1] + ["# comment after the first record"] + lines[1:]
+        elif fmt == "cif":
+            out = ["# leading comment"] + lines + ["# trailing comment"]
+        elif fmt == "pdb":
+            out = ["REMARK   1 written by the round-trip check"] + lines
+    elif kind == "spacing":
+        if fmt == "pdb":
+            out = [ln.rstrip() for ln in lines]             # fixed columns: only the padding may go
+        else:
+            def widen(ln):
+                if fmt in ("discus", "pdffit") and ln.split()[:1] in (["title"], ["spcgr"]):
+                    return ln
+                if fmt == "xyz" and lines.index(ln) == 1:
+                    return ln
+                if fmt == "xcfg" and ("=" in ln or len(ln.split()) <= 1):
+                    return ln
+                if fmt == "cif" and not ln.startswith("  "):
+                    return ln
+                return re.sub(r"(?<=\S) +(?=\S)", lambda m: m.group() + "  ", ln)
+            out = [widen(ln) for ln in lines]
+    else:
+        if fmt in ("xyz", "rawxyz"):
+            out = lines[:2] + [""] + lines[2:] if fmt == "xyz" else lines[:1] + [""] + lines[1:]
+        elif fmt in ("discus", "xcfg", "pdb"):
+            out = lines[:1] + ["", ""] + lines[1:]
+        elif fmt == "pdffit":
+            k = lines.index("atoms") if "atoms" in lines else 1
+            out = lines[:k] + [""] + lines[k:]
+        else:
+            out = [""] + lines
+    return kind, "\n".join(out) + "\n"
+
+
+def gen_text_cases(ck):
+    """(format, text, origin) triples."""
+    rng = __import__("random").Random(ck.seed * 104729 + 17)
+    cases = []
+    # 1. supercell headers
+    reps = 1 if ck.tier == "quick" else 6
+    for _ in range(reps):
+        for fmt in ("pdffit", "discus"):
+            for nc in NCELLS:
+                for n4 in (1, 2):
+                    cases.append((fmt, ncell_text(rng, fmt, nc, n4), "generated text with ncell %r" % (nc + (n4,),)))
+    # 2. the data files of the test suite, under every format whose parser accepts them
+    td = os.path.join(common.REPO, "tests", "testdata")
+    try:
+        names = sorted(os.listdir(td))
+    except OSError:
+        names = []
+    for nm in names:
+        try:
+            with open(os.path.join(td, nm), encoding="utf-8", errors="replace") as fp:
+                text = fp.read()
+        except OSError:
+            continue
+        if len(text) > 200000:
+            continue
+        for fmt in FORMATS:
+            cases.append((fmt, text, "tests/testdata/%s" % nm))
+    # 3. our own writer output with harmless layout variations
+    nvar = 6 if ck.tier == "quick" else 60
+    for fmt in FORMATS:
+        k = 0
+        while k < nvar:
+            spec = gen_spec(rng, fmt, natoms=rng.choice([1, 2, 3, 5]))
+            try:
+                s = build(spec)
+                if in_range(fmt, s) is not None:
+                    continue
+                t = s.writeStr(fmt)
+            except Exception:  # noqa: BLE001
+                continue
+            kind, t2 = vary_text(rng, fmt, t)
+            cases.append((fmt, t2, "writer output, variation %s" % kind))
+            k += 1
+    return cases
+
+
+def read_text(fmt, text):
+    from diffpy.structure import Structure
+
+    s = Structure()
+    with _quiet():
+        s.readStr(text, fmt)
+    return s
+
+
+def text_oracle(fmt, text):
+    """Round trips starting from a text: the structure after the FIRST read must be preserved by
+    all later trips.  Returns ("skip", reason) when the text is not a valid input of the format,
+    (None, None) when the property holds, else (key, what)."""
+    try:
+        s0 = read_text(fmt, text)
+    except Exception as e:  # noqa: BLE001
+        return "skip", "not accepted by the %s reader (%s)" % (fmt, type(e).__name__)
+    if s0 is None or (len(s0) == 0 and fmt in ("xcfg",)):
+        return "skip", "empty"
+    reason = in_range(fmt, s0)
+    if reason is not None:
+        return "skip", "outside the representable range: " + reason
+    bad, _ = oracle(fmt, s0, fresh=lambda: read_text(fmt, text))
+    if bad is None:
+        return None, None
+    return bad
+
+
 def gen_cases(ck, n_per_format):
     cases = []
     for fmt in FORMATS:
@@ -1493,7 +1652,35 @@ def run(ck):
                             {"kind": "correspondence", "format": fmt, "spec": spec, "trip": k + 1, "observed": msg,
                              "stream": "fmt.%s.write / fmt.%s.parse" % (fmt, fmt),
                              "theorem": "DS.Props.C04.roundtrip_%s (model no longer matches the code)" % fmt}, no_failing_input=True)
-    nev = sum(st["cases"] for st in stats.values())
+    # ---- round trips that start from text ----
+    t_tx = time.time()
+    tstats = {"cases": 0, "accepted": 0, "skipped": 0, "by_origin": {}}
+    for fmt, text, origin in gen_text_cases(ck):
+        tstats["cases"] += 1
+        key, what = text_oracle(fmt, text)
+        okind = origin.split(",")[0].split(" with")[0] if not origin.startswith("tests/") else "tests/testdata"
+        if key == "skip":
+            tstats["skipped"] += 1
+            continue
+        tstats["accepted"] += 1
+        tstats["by_origin"][okind] = tstats["by_origin"].get(okind, 0) + 1
+        if key is None:
+            continue
+        s0 = read_text(fmt, text)
+        kd = known_defect(fmt, s0)
+        if kd:
+            key = kd
+        elif not re.match(r"(pdb|cif):drift", key):
+            key = "text:" + key
+        if key in reported:
+            continue
+        reported.add(key)
+        ck.fail(key, "%s  [round trips starting from a text: %s; first lines: %r]" % (what, origin, text.split("\n")[:12]),
+                {"kind": "text-oracle", "format": fmt, "text": text, "origin": origin,
+                 "expected": "the structure after the first read is preserved by every later write/read trip", "observed": what})
+    ck.coverage["text_stream"] = tstats
+    ck.notes.append("text stream: %d texts (%d accepted) in %.1fs" % (tstats["cases"], tstats["accepted"], time.time() - t_tx))
+    nev = sum(st["cases"] for st in stats.values()) + tstats["accepted"]
     ck.coverage["evaluations"] += nev * 3
     ck.coverage["distinct_nontrivial"] += len({json.dumps(c[1], sort_keys=True) + c[0] for c in cases if c[1]["atoms"]})
     ck.coverage["traces_validated_against_impl"] += nmodel
@@ -1503,7 +1690,10 @@ def run(ck):
                            "rounding-boundary values; ions; titles incl. blank, padded, long, unicode; coordinates inside/outside the cell, "
                            "tiny, large, and k+1/2 units of the last printed place +-2 ulp).  Each case = 3 write/read trips on the real code; "
                            "distinct_nontrivial counts distinct (format, structure) pairs with at least one atom; "
-                           "traces_validated_against_impl counts (structure, trip) pairs whose real text and re-read structure were compared with the Lean model" % nper)
+                           "traces_validated_against_impl counts (structure, trip) pairs whose real text and re-read structure were compared with the Lean model.  "
+                           "Second stream, starting from TEXT: DISCUS/PDFfit texts with supercell headers (ncell 2,1,1 / 1,3,2 / 2,2,2 ... and the matching number of atoms), "
+                           "every file of tests/testdata under every format whose reader accepts it, and writer output with harmless layout variations "
+                           "(blank lines, comments, column spacing); read -> (write -> read) x 3, fresh and in place, the structure after the first read is the reference" % nper)
     ck.coverage["per_format"] = stats
     ck.coverage["byte_identical_texts"] = nbyte
     ck.coverage["samples"] = [describe(c[1])[:300] + " -> " + c[0] for c in cases[len(corpus()):len(corpus()) + 3]]
@@ -1528,6 +1718,16 @@ def ofText(t):
 
 def replay(path):
     obj = json.load(open(path))
+    if obj.get("kind") == "text-oracle":
+        key, what = text_oracle(obj["format"], obj["text"])
+        if key == "skip":
+            print("replay: the text is no longer a valid input:", what)
+            return 0
+        if key:
+            print("replay: still fails:", what)
+            return 1
+        print("replay: the round trip property holds on this text")
+        return 0
     if obj.get("kind") not in ("oracle", "correspondence") or "spec" not in obj:
         print("replay: nothing executable in", path)
         return 0
